@@ -546,6 +546,10 @@ func finishC16(sc *Scenario, refs *RefTable) {
 		}
 	}
 	seg.Policy = genPolicy(r, est+10)
+	if sc.Note == "crowd" {
+		// everybody advances at about the same pace: the greatest possible number of calls in the same phase
+		seg.Policy = Policy{Name: "uniform"}
+	}
 	seg.StepCap = 50*est + 1_000_000
 	if r.chance(0.4) {
 		w := len(seg.Phases[len(seg.Phases)-1])
@@ -791,6 +795,31 @@ func runCheck(prop, tier string) int {
 				}
 			}
 			drills = append(drills, sc)
+		}
+		if prop == "C16" && tier == "thorough" {
+			// crowds: hundreds of callers each making one of the cheapest calls of one family (caps on
+			// helper goroutines, slots or buffers that "nobody will ever reach")
+			for k, fam := range []string{"qr", "qr", "qr", "dm", "aztec", "pdf417", "code128", "ean"} {
+				r := &rng{s: mix(seed, 997, uint64(k))}
+				var tiny []Call
+				for len(tiny) < 6 {
+					c := genFamily(r, Profile{MaxLen: 10, MaxRSEcc: 10, ScaleMax: 40}, fam)
+					if len(c.B) <= 12 {
+						tiny = append(tiny, c)
+					}
+				}
+				var crowd [][]Call
+				n := r.rangeIn(180, 320)
+				if k < 2 {
+					n = r.rangeIn(600, 800) // two really big QR crowds
+				}
+				for wi := n; wi > 0; wi-- {
+					crowd = append(crowd, []Call{tiny[r.intn(len(tiny))]})
+				}
+				sc := &Scenario{ID: 1_700_000 + k, Seed: mix(seed, 998, uint64(k)), Property: prop, Note: "crowd", Race: k%4 == 3}
+				sc.Segments = []Segment{{Kind: "calls", Seed: r.next(), MapMode: 4, Phases: [][][]Call{crowd}}}
+				drills = append(drills, sc)
+			}
 		}
 		scs = append(drills, scs...) // first, so that a time budget never skips them
 		st.BoundaryGroups = len(groups)
